@@ -110,3 +110,10 @@ func VerifBumpCounters(t *Torrent, dl, ul, wasted, seeded int64) {
 
 // VerifUpdateStats runs the periodic resume-stats writer once (normally driven by a ticker).
 func VerifUpdateStats(s *Session) { s.updateStats() }
+
+// VerifHasBitfield reports whether the live torrent has an in-memory bitfield (read under its lock).
+func VerifHasBitfield(t *Torrent) bool {
+	t.torrent.mBitfield.RLock()
+	defer t.torrent.mBitfield.RUnlock()
+	return t.torrent.bitfield != nil
+}
